@@ -6,5 +6,5 @@ CONSTANTS
   B = {"b1", "b2"}
   Owner <- Owner_3
   MaxOps = 12
-CONSTRAINT Emit
+INVARIANT Emit
 CHECK_DEADLOCK FALSE
